@@ -1,7 +1,13 @@
-//! Concurrent scenario for Miri's seeded scheduler (thorough tier, supplementary to sc_sim):
-//! N threads evaluate the same list of calls, each starting at a different offset, with no
-//! synchronisation between them. Only Miri's own verdict (data race / UB) is used; results are
-//! NOT compared (Miri perturbs float intrinsics on purpose).
+//! Concurrent scenario for Miri's seeded scheduler (supplementary to sc_sim): a second simulator
+//! that pre-empts at basic-block granularity.
+//!
+//! Phase A: the main thread evaluates every call once, sequentially -> reference outcomes.
+//! Phase B: N threads evaluate the same list (threads 0 and 1 in the same order from the start, the
+//! others from an offset), with no synchronisation between them, and compare every outcome with
+//! the reference, bit for bit.
+//! Verdicts: Miri's own (data race / UB), and `MISMATCH` lines (exit code 42).
+//! Must be run with -Zmiri-deterministic-floats: otherwise Miri perturbs float intrinsics at random
+//! and equal calls legitimately give different results.
 //!
 //! argv: <calls-file> <threads>      calls-file lines: <ev>\t<placeholder>\t<expr>
 use num_complex::Complex;
@@ -19,31 +25,72 @@ fn hx(t: &str) -> u64 {
     u64::from_str_radix(t.trim_start_matches("0x"), 16).unwrap_or(0)
 }
 
-fn run(c: &Call) -> u8 {
+fn fmt_err(e: string_calculator::ParseError) -> String {
+    match e {
+        string_calculator::ParseError::UnableToParse(m) => format!("err UnableToParse {}", m),
+        string_calculator::ParseError::InvalidOperator(m) => format!("err InvalidOperator {}", m),
+    }
+}
+
+fn fmt_num(n: Number) -> String {
+    match n {
+        Number::Float(f) => format!("ok Float {:016x}", f.to_bits()),
+        Number::Integer(i) => format!("ok Integer {}", i),
+    }
+}
+
+/// The call's outcome in a bit-exact text form.
+fn run(c: &Call) -> String {
     let r = std::panic::catch_unwind(|| match c.ev.as_str() {
-        "f64" => eval_f64(c.expr.clone(), f64::from_bits(hx(&c.ph))).is_ok(),
-        "i64" => eval_i64(c.expr.clone(), c.ph.parse().unwrap_or(0)).is_ok(),
+        "f64" => match eval_f64(c.expr.clone(), f64::from_bits(hx(&c.ph))) {
+            Ok(v) => format!("ok {:016x}", v.to_bits()),
+            Err(e) => fmt_err(e),
+        },
+        "i64" => match eval_i64(c.expr.clone(), c.ph.parse().unwrap_or(0)) {
+            Ok(v) => format!("ok {}", v),
+            Err(e) => fmt_err(e),
+        },
         "decimal" => {
             let mut b = [0u8; 16];
             for i in 0..16 {
                 b[i] = u8::from_str_radix(c.ph.get(2 * i..2 * i + 2).unwrap_or("00"), 16).unwrap_or(0);
             }
-            eval_decimal(c.expr.clone(), Decimal::deserialize(b)).is_ok()
+            match eval_decimal(c.expr.clone(), Decimal::deserialize(b)) {
+                Ok(v) => format!("ok {:?}", v.serialize()),
+                Err(e) => fmt_err(e),
+            }
         }
         "complex" => {
             let mut it = c.ph.split(',');
             let re = f64::from_bits(hx(it.next().unwrap_or("0")));
             let im = f64::from_bits(hx(it.next().unwrap_or("0")));
-            eval_complex(c.expr.clone(), Complex::new(re, im)).is_ok()
+            match eval_complex(c.expr.clone(), Complex::new(re, im)) {
+                Ok(v) => format!("ok {:016x} {:016x}", v.re.to_bits(), v.im.to_bits()),
+                Err(e) => fmt_err(e),
+            }
         }
-        "number_i" => eval_number(c.expr.clone(), Number::Integer(c.ph.parse().unwrap_or(0))).is_ok(),
-        "number_f" => eval_number(c.expr.clone(), Number::Float(f64::from_bits(hx(&c.ph)))).is_ok(),
-        _ => false,
+        "number_i" => match eval_number(c.expr.clone(), Number::Integer(c.ph.parse().unwrap_or(0))) {
+            Ok(v) => fmt_num(v),
+            Err(e) => fmt_err(e),
+        },
+        "number_f" => match eval_number(c.expr.clone(), Number::Float(f64::from_bits(hx(&c.ph)))) {
+            Ok(v) => fmt_num(v),
+            Err(e) => fmt_err(e),
+        },
+        _ => "unknown evaluator".to_string(),
     });
     match r {
-        Ok(true) => 0,
-        Ok(false) => 1,
-        Err(_) => 2,
+        Ok(s) => s,
+        Err(p) => {
+            let m = if let Some(s) = p.downcast_ref::<&str>() {
+                s.to_string()
+            } else if let Some(s) = p.downcast_ref::<String>() {
+                s.clone()
+            } else {
+                String::new()
+            };
+            format!("panic {}", m)
+        }
     }
 }
 
@@ -59,25 +106,41 @@ fn main() {
             Some(Call { ev: it.next()?.to_string(), ph: it.next()?.to_string(), expr: it.next()?.to_string() })
         })
         .collect();
+    // Phase A: sequential reference
+    let reference: Vec<String> = calls.iter().map(run).collect();
+    let reference = std::sync::Arc::new(reference);
+    // Phase B: concurrent
     let mut hs = Vec::new();
     for t in 0..threads {
         let calls = calls.clone();
+        let reference = reference.clone();
         hs.push(std::thread::spawn(move || {
             let n = calls.len();
-            let mut tally = [0usize; 3];
+            let mut bad: Vec<String> = Vec::new();
             for k in 0..n {
-                let c = &calls[(k + t * n / threads.max(1)) % n];
-                tally[run(c) as usize] += 1;
+                // threads 0 and 1 walk the list in the same order from the start (maximal overlap of equal calls),
+                // the others start at an offset
+                let i = if t < 2 { k } else { (k + (t - 1) * n / threads.max(1)) % n };
+                let got = run(&calls[i]);
+                if got != reference[i] {
+                    bad.push(format!(
+                        "MISMATCH thread={} call={} ev={} ph={} expr={:?} sequential={:?} concurrent={:?}",
+                        t, i, calls[i].ev, calls[i].ph, calls[i].expr, reference[i], got
+                    ));
+                }
             }
-            tally
+            bad
         }));
     }
-    let mut tot = [0usize; 3];
+    let mut bad = Vec::new();
     for h in hs {
-        let t = h.join().unwrap();
-        for i in 0..3 {
-            tot[i] += t[i];
-        }
+        bad.extend(h.join().unwrap());
     }
-    println!("miri scenario done: {} threads x {} calls: ok {} err {} panic {}", threads, calls.len(), tot[0], tot[1], tot[2]);
+    for b in &bad {
+        println!("{}", b);
+    }
+    println!("miri scenario done: {} threads x {} calls, {} mismatches", threads, calls.len(), bad.len());
+    if !bad.is_empty() {
+        std::process::exit(42);
+    }
 }
